@@ -426,14 +426,13 @@ def params(func):
 
 
 def walk_no_nested(node):
-    """walk a function body without entering nested function/class definitions (lambdas are entered)"""
-    stack = list(ast.iter_child_nodes(node))
-    while stack:
-        n = stack.pop()
-        yield n
-        if isinstance(n, (ast.FunctionDef, ast.AsyncFunctionDef, ast.ClassDef)):
+    """walk a function body in source (pre-)order without entering nested function/class definitions
+    (lambdas and comprehensions are entered)"""
+    for ch in ast.iter_child_nodes(node):
+        yield ch
+        if isinstance(ch, (ast.FunctionDef, ast.AsyncFunctionDef, ast.ClassDef)):
             continue
-        stack.extend(ast.iter_child_nodes(n))
+        yield from walk_no_nested(ch)
 
 
 def calls_in(node, nested=False):
